@@ -636,6 +636,7 @@ class Engine:
         self.child_hook = None
         self.purify_div = False
         self.nice_bound = 1000000
+        self.max_violations_per_leaf = 3
         self.rounding = False
         self.enum_models = 0
         self._quot = {}
@@ -1175,7 +1176,10 @@ class Engine:
         if r == z3.unsat:
             self.stats["discharged"] += len(pend)
             return
+        found = 0
         for name, p, info in pend:
+            if found >= self.max_violations_per_leaf:
+                break        # enough counterexamples from this leaf; the rest stays undischarged (not counted)
             self._flush()
             self.solver.push()
             self.solver.add(z3.Not(p))
@@ -1183,6 +1187,7 @@ class Engine:
             if r == z3.unsat:
                 self.stats["discharged"] += 1
             elif r == z3.sat:
+                found += 1
                 m = self._nicer(self.solver.model())
                 self.violations.append(dict(name=name, model=self._model_dict(m), path=self.path_string(),
                                             info=info(m) if callable(info) else info, _m=m))
